@@ -132,6 +132,18 @@ func genTxnSchema(rng *rand.Rand, withRefs bool) TxnSchema {
 		}
 		spec.Tables = append(spec.Tables, t)
 	}
+	if withRefs && rng.Intn(3) == 0 {
+		// chains: rows of a non-root table that hold each other alive (next), held by a root row (chead) that
+		// also refers to them weakly (cwatch): dropping the head garbage collects the chain link by link, and
+		// every pass of the reference bookkeeping touches the same root row again
+		uu := ColType{Kind: "set", Key: "uuid", Min: 0, Max: -1}
+		spec.Tables[0].Cols = append(spec.Tables[0].Cols, ColSpec{Name: "chead", Type: uu, RefTable: chainTable, RefType: "strong"},
+			ColSpec{Name: "cwatch", Type: uu, RefTable: chainTable, RefType: "weak"})
+		spec.Tables = append(spec.Tables, TableSpec{Name: chainTable, Cols: []ColSpec{
+			{Name: "name", Type: ColType{Kind: "atom", Key: "string", Min: 1, Max: 1}},
+			{Name: "n", Type: ColType{Kind: "atom", Key: "integer", Min: 1, Max: 1}},
+			{Name: "next", Type: uu, RefTable: chainTable, RefType: "strong"}}})
+	}
 	// every non-root table needs a strong referrer column somewhere, else its rows can never live
 	for i := range spec.Tables {
 		t := &spec.Tables[i]
@@ -627,6 +639,24 @@ func (g *txnGen) genOp() OperationJ {
 	}
 }
 
+// genChainTxn: a transaction about chains (see genChainBuild / genChainDrop), with up to two other operations
+func genChainTxn(rng *rand.Rand, ts TxnSchema, sh *shadow) TxnJ {
+	g := &txnGen{rng: rng, ts: ts, sh: sh, named: map[string]string{}, inserted: map[string][]string{}}
+	var t TxnJ
+	for k := rng.Intn(2); k > 0; k-- {
+		t.Ops = append(t.Ops, g.genOp())
+	}
+	if ops := g.genChainDrop(); ops != nil && rng.Intn(4) != 0 {
+		t.Ops = append(t.Ops, ops...)
+	} else {
+		t.Ops = append(t.Ops, g.genChainBuild()...)
+	}
+	if rng.Intn(3) == 0 {
+		t.Ops = append(t.Ops, g.genOp())
+	}
+	return t
+}
+
 func genTxn(rng *rand.Rand, ts TxnSchema, sh *shadow, nops int) TxnJ {
 	g := &txnGen{rng: rng, ts: ts, sh: sh, named: map[string]string{}, inserted: map[string][]string{}}
 	var t TxnJ
@@ -648,6 +678,12 @@ func genTxn(rng *rand.Rand, ts TxnSchema, sh *shadow, nops int) TxnJ {
 		// waits whose selected rows agree on the compared columns, and whose expected rows repeat
 		if op, ok := g.genWaitDup(); ok {
 			t.Ops = append(t.Ops, op)
+		}
+	case 21, 22:
+		if ops := g.genChainDrop(); ops != nil && rng.Intn(3) != 0 {
+			t.Ops = append(t.Ops, ops...)
+		} else {
+			t.Ops = append(t.Ops, g.genChainBuild()...)
 		}
 	case 0:
 		t.Ops = append(t.Ops, g.genIndexMove()...)
@@ -802,6 +838,94 @@ func (g *txnGen) genBackToDefault() (OperationJ, bool) {
 		}
 	}
 	return OperationJ{}, false
+}
+
+const chainTable = "TN"
+
+func (g *txnGen) hasChains() bool {
+	for _, t := range g.ts.Spec.Tables {
+		if t.Name == chainTable {
+			return true
+		}
+	}
+	return false
+}
+
+// genChainBuild: a chain of 2-4 rows of the non-root chain table (each holding the next one alive), its head
+// held by a row of the first table, which also refers weakly to every link
+func (g *txnGen) genChainBuild() []OperationJ {
+	if !g.hasChains() {
+		return nil
+	}
+	rng := g.rng
+	n := 2 + rng.Intn(3)
+	var ops []OperationJ
+	var links []Atom
+	for i := 0; i < n; i++ {
+		links = append(links, AU(g.sh.fresh()))
+	}
+	for i := n - 1; i >= 0; i-- {
+		row := Row{"name": VA(AS(fmt.Sprintf("c%d", i))), "n": VA(AI(int64(i)))}
+		if i < n-1 {
+			row["next"] = VS(links[i+1])
+		}
+		ops = append(ops, OperationJ{Op: "insert", Table: chainTable, UUID: links[i].S, Row: row})
+		g.inserted[chainTable] = append(g.inserted[chainTable], links[i].S)
+	}
+	watch := append([]Atom{}, links...)
+	if rng.Intn(3) == 0 {
+		watch = watch[:1+rng.Intn(len(watch))]
+	}
+	t0 := g.ts.Spec.Tables[0]
+	if ex := g.sh.uuids(t0.Name); len(ex) > 0 && rng.Intn(2) == 0 {
+		ops = append(ops, OperationJ{Op: "mutate", Table: t0.Name, Where: byUUID(ex[rng.Intn(len(ex))]),
+			Mutations: []MutationJ{{Col: "chead", Mutator: "insert", Val: VS(links[0])}, {Col: "cwatch", Mutator: "insert", Val: VS(watch...)}}})
+	} else {
+		row := Row{}
+		for _, c := range t0.Cols {
+			if c.RefTable == "" && c.ValRefTable == "" {
+				row[c.Name] = nativeToOvsValue(g.genColValue(c))
+			}
+		}
+		row["name"] = VA(AS(fmt.Sprintf("h%d", rng.Intn(1000))))
+		row["chead"], row["cwatch"] = VS(links[0]), VS(watch...)
+		op := OperationJ{Op: "insert", Table: t0.Name, UUID: g.sh.fresh(), Row: row}
+		g.inserted[t0.Name] = append(g.inserted[t0.Name], op.UUID)
+		ops = append(ops, op)
+	}
+	return ops
+}
+
+// genChainDrop: a row of the first table lets go of its chain heads in an operation that changes other
+// columns of the row too (the chain is collected over several passes, each of which prunes the row's weak
+// references again)
+func (g *txnGen) genChainDrop() []OperationJ {
+	if !g.hasChains() {
+		return nil
+	}
+	rng := g.rng
+	t0 := g.ts.Spec.Tables[0]
+	var holders []string
+	for _, u := range g.sh.uuids(t0.Name) {
+		if v := g.sh.rows[t0.Name][u]["chead"]; v != nil && len(v.S) > 0 {
+			holders = append(holders, u)
+		}
+	}
+	if len(holders) == 0 {
+		return nil
+	}
+	u := holders[rng.Intn(len(holders))]
+	heads := g.sh.rows[t0.Name][u]["chead"].S
+	switch rng.Intn(3) {
+	case 0:
+		return []OperationJ{{Op: "mutate", Table: t0.Name, Where: byUUID(u), Mutations: []MutationJ{{Col: "chead", Mutator: "delete", Val: VS(heads...)}, {Col: "n", Mutator: "+=", Val: VA(AI(1))}}}}
+	case 1:
+		return []OperationJ{{Op: "update", Table: t0.Name, Where: byUUID(u), Row: Row{"chead": VS(), "n": VA(AI(int64(rng.Intn(50))))}}}
+	default:
+		// the head goes in one operation, another operation of the transaction has already changed the row
+		return []OperationJ{{Op: "update", Table: t0.Name, Where: byUUID(u), Row: Row{"n": VA(AI(int64(rng.Intn(50))))}},
+			{Op: "mutate", Table: t0.Name, Where: byUUID(u), Mutations: []MutationJ{{Col: "chead", Mutator: "delete", Val: VS(heads[:1+rng.Intn(len(heads))]...)}}}}
+	}
 }
 
 // genIndexClaim: an insert whose index columns equal those of an existing row
